@@ -28,6 +28,11 @@ def limit_cases():
         yield ("push%d" % n, push(b"\x11" * n, 2), [], b"", [])
         yield ("push%d-unexec" % n, O0 + IF + push(b"\x11" * n, 2) + ENDIF + O1, [], b"", [])
         yield ("push%d-pd4" % n, push(b"\x11" * n, 4), [], b"", [])
+        # the same in the later scripts of a spend (they are not screened when the session is opened)
+        yield ("push%d-unexec-spk" % n, O1, [], O0 + IF + push(b"\x11" * n, 2) + ENDIF + O1, [])
+        yield ("push%d-spk" % n, O1, [], push(b"\x11" * n, 2) + DROP, [])
+        redeem_p = O0 + IF + push(b"\x11" * n, 2) + ENDIF + O1
+        yield ("push%d-unexec-redeem" % n, push(redeem_p, 2), [], bytes([OP["HASH160"]]) + push(hash160(redeem_p)) + bytes([OP["EQUAL"]]), ["P2SH"])
     # --- op count 201
     for n in (199, 200, 201, 202, 203):
         yield ("ops%d" % n, O1 + NOP * n, [], b"", [])
@@ -85,7 +90,7 @@ def limit_cases():
         yield ("phase-redeem%d-sigops" % n, NOP * 100 + push(redeem, 2 if len(redeem) > 255 else None), [], spk, ["P2SH"])
 
 
-def limit_jobs(prefix="lim", cmp=CMP_C01, modes=("steps", "run")):
+def limit_jobs(prefix="lim", cmp=CMP_C01, modes=("steps", "run"), modes_extra=()):
     jobs = []
     i = 0
     for tag, script, stack, succ, flags in limit_cases():
@@ -96,4 +101,12 @@ def limit_jobs(prefix="lim", cmp=CMP_C01, modes=("steps", "run")):
                 j = SessionJob("%s%d:%s:%s" % (prefix, i, tag, sv), script, stack, flags, sv, succ=succ, cmds=[mode], cmp=cmp)
                 j.tag = tag
                 jobs.append(j)
+            if tag.startswith("ops") and "rewind" in modes_extra:
+                # the count must survive going back and forth: step in, rewind part of the way, continue to the limit
+                for k, r in ((30, 2), (25, 25)):
+                    i += 1
+                    j = SessionJob("%s%d:%s:%s:rw%d" % (prefix, i, tag, sv, k), script, stack, flags, sv, succ=succ, cmds=["step"] * k + ["rewind"] * r + ["steps"],
+                                   cmp=list(cmp) + (["opcount"] if "opcount" not in cmp else []), hist=True)
+                    j.tag = tag + "-rewind"
+                    jobs.append(j)
     return jobs
